@@ -184,6 +184,9 @@ type Options struct {
 	NoStyles   bool   `json:"no_styles,omitempty"`    // omit xl/styles.xml (all s attributes are then omitted too)
 	NoDocProps bool   `json:"no_doc_props,omitempty"` // omit docProps/core.xml and app.xml
 	NoTheme    bool   `json:"no_theme,omitempty"`     // omit xl/theme/theme1.xml
+	// StaleRels adds xl/_rels/workbook.rels, the relationships part of a non-existent part xl/workbook, with the
+	// ids of the real one bound to other worksheet parts
+	StaleRels bool `json:"stale_rels,omitempty"`
 	// WorkbookPrefix: namespace prefix for xl/workbook.xml ("" or e.g. "x").
 	WorkbookPrefix string `json:"workbook_prefix,omitempty"`
 	// Extra members are appended verbatim (decoys for the detection property).
@@ -869,6 +872,24 @@ func (w Workbook) Members() ([]zipw.Member, error) {
 	add("_rels/.rels", relsXML(rootRels))
 	add("xl/workbook.xml", []byte(wb.String()))
 	add("xl/_rels/workbook.xml.rels", relsXML(rels))
+	if w.Opt.StaleRels {
+		// the relationships part of a part "xl/workbook" that does not exist (a leftover): the same ids, the
+		// worksheet targets moved on by one - nothing refers to it, it belongs to no part of the package
+		var ws []int
+		for i, r := range rels {
+			if r.typ == relBase+"worksheet" {
+				ws = append(ws, i)
+			}
+		}
+		stale := append([]rel{}, rels...)
+		for k, i := range ws {
+			stale[i].target = rels[ws[(k+1)%len(ws)]].target
+			if len(ws) == 1 && len(w.Decoys) > 0 {
+				stale[i].target = relTarget("xl", w.Decoys[0].Part, false)
+			}
+		}
+		add("xl/_rels/workbook.rels", relsXML(stale))
+	}
 	for i := range w.Sheets {
 		if w.Sheets[i].Missing {
 			continue
